@@ -506,7 +506,17 @@ class VerifyTask:
         pre = c.requires(obj, a) if c.self_shape is not None else c.requires(a)
         st.oblige(f"{self.name}/call-pre@{cls.__name__}():{(site or '').split(':')[-1]}", pre if isinstance(pre, (SBool, bool)) else mk_bool(V._zb(pre)), "call-pre")
         excs = list(c.raises)
-        if excs:
+        riff = getattr(c, "raises_iff", None)
+        if riff is not None:
+            # a constructor contract that says exactly when it raises (as Contract.apply does for functions):
+            # the caller follows the exceptional path only where one of the conditions holds
+            excs = list(riff)
+            conds = [riff[e](obj, a) if c.self_shape is not None else riff[e](a) for e in excs]
+            conds = [cnd if isinstance(cnd, (SBool, bool)) else mk_bool(V._zb(cnd)) for cnd in conds]
+            k = st.choose([both(*[neg(cnd) for cnd in conds])] + conds)
+            if k > 0:
+                raise PyRaise(SExc(excs[k - 1], ("<from constructor contract>",), site=f"callee {cls.__name__}"))
+        elif excs:
             k = st.fork(len(excs) + 1)
             if k > 0:
                 raise PyRaise(SExc(excs[k - 1], ("<from constructor contract>",), site=f"callee {cls.__name__}"))
